@@ -138,6 +138,17 @@ def compress(data: bytes, kind: str, members: int = 1) -> bytes:
     raise ValueError(kind)
 
 
+def decompress_bytes(data: bytes, kind: str) -> bytes:
+    """Python's own decompressors as ground truth for whether a damaged stream still decodes."""
+    if kind == "gz":
+        return gzip.decompress(data)
+    if kind == "bz2":
+        return bz2.decompress(data)
+    if kind == "xz":
+        return lzma.decompress(data)
+    raise ValueError(kind)
+
+
 def decompress_file(path: str) -> bytes:
     with open(path, "rb") as f:
         data = f.read()
